@@ -58,7 +58,7 @@ class PythonSampler:
         # Generate a fair die roll to determine which column to inspect.
         col = int(self.rng.uniform(0, self.n))
         # Generate a biased coin toss to determine which option to pick.
-        heads = self.rng.uniform() < 0.5
+        heads = self.rng.uniform() < self.proba[col]
 
         # Based on the outcome, return either the column or its alias.
         if heads:
